@@ -215,3 +215,4 @@ _set('C17', 'technique', 'Kani complete harnesses for argument checks + bounded 
 _add('C09', 'decides', 'comment_kernel (Kani, attempt) / string_literal_kernel (Kani, bounded): the text of a comment / string literal is read character by character up to the line end (CR, LF, end) / the closing quote, verbatim, whatever it contains (defects 58, 59).')
 _add('C10', 'decides', 'string_literal_kernel::inside_string (Kani, bounded 1-2 characters, discharged since defect 58): the text of a string literal is the maximal run of characters other than the quote, CR and LF, verbatim; the input is left right behind it.')
 _add('C20', 'decides', 'or(): the second alternative starts at the original position for ANY first alternative, also one that does not undo its own soft failure (defect 60).')
+_add('C15', 'decides', 'gen_paths (Verus, the whole generator on its real bodies): every generated branch lands on a definition of its label at EQUAL linear stack depth (label summaries carry depths, concatenation shifts them by the net effect); theorem: on every path of fall-through and taken generated branches the depth actually reached is the linear depth, so whatever a statement pushes is popped again along every path inside it, for any number of loop iterations (the obligation the SELECT CASE defect 63 fails).')
